@@ -34,6 +34,12 @@ def mkval(tag):
         return impl.PVLObject([("x", 1), ("g", impl.PVLGroup([("y", 1)])), ("e", impl.PVLGroup())])
     if tag == "E":
         return impl.PVLGroup()          # empty (falsy) nested container
+    if tag == "Q":
+        return impl.Quantity([1, [2, 3]], "m")      # what 'k = (1, (2, 3)) <m>' loads as: a mutable list inside
+    if tag == "L":
+        return [1, [2, 3]]
+    if tag == "D":
+        return {"x": 1, "y": [2]}       # a plain dict put there by hand
     return tag
 
 
@@ -88,7 +94,7 @@ MUTS = [["update_nested", "a"], ["setitem_nested", "b"], ["append", "a", 5], ["a
         ["delitem", "a"], ["delitem", "b"], ["pop"], ["insert3", 0, "b", 5], ["clear"],
         ["setdefault", "c", 5], ["update_dict", "a", 6], ["popk", "a"],
         ["extend_list", "b", 5], ["insert_before", "a", "c", 5, 0]]
-NESTED = [["n_append"], ["n_setitem"], ["n_pop"], ["n_clear"], ["n_insert"]]
+NESTED = [["n_append"], ["n_setitem"], ["n_pop"], ["n_clear"], ["n_insert"], ["n_mutables"]]
 
 
 def nested_containers(o, depth=0):
@@ -100,6 +106,18 @@ def nested_containers(o, depth=0):
 
 
 def mutate(o, mut):
+    if mut[0] == "n_mutables":
+        # every mutable value that is not a container of ours: lists, the list inside a quantity, plain dicts
+        for k, v in list(o):
+            if isinstance(v, impl.Quantity):
+                v = v.value
+            if isinstance(v, list):
+                v.append(9)
+                if len(v) > 1 and isinstance(v[1], list):
+                    v[1].append(8)
+            elif isinstance(v, dict) and not isinstance(v, impl.OrderedMultiDict):
+                v["zz"] = 9
+        return True
     if mut[0].startswith("n_"):
         # every nested container, at every depth
         hit = False
@@ -130,6 +148,8 @@ def classes_of(o):
     for k, v in list(o):
         if isinstance(v, impl.OrderedMultiDict):
             out.append((k, classes_of(v)))
+        elif isinstance(v, (dict, list, tuple)):
+            out.append((k, type(v).__name__))
     return out
 
 
@@ -255,7 +275,7 @@ def states(n_max, vals):
 def shard(spec):
     cls, pairs, mut_len, nested_len = spec
     acc = Acc()
-    has_nested = any(v in ("G", "O", "E") for _, v in pairs)
+    has_nested = any(v in ("G", "O", "E", "Q", "L", "D") for _, v in pairs)
     mutseqs = [[]]
     for L in range(1, mut_len + 1):
         mutseqs += [list(s) for s in itertools.product(MUTS, repeat=L)]
@@ -297,6 +317,13 @@ def run(ctx):
     else:
         n_max, vals, mut_len, nested_len = 3, [0, "G", "O", "E"], 2, 2
     specs = []
+    # hand-built values: a quantity holding a list, a plain list, a plain dict
+    extra_states = []
+    for t in ("Q", "L", "D"):
+        extra_states += [[["a", t]], [["a", t], ["b", 1]], [["a", 1], ["a", t]]]
+    for cls in C.CLASSES:
+        for pairs in extra_states:
+            specs.append((cls, pairs, mut_len, nested_len))
     for cls in C.CLASSES:
         for pairs in states(n_max, vals):
             specs.append((cls, pairs, mut_len, nested_len))
